@@ -134,6 +134,21 @@ def _source_forms():
         forms[key] = " ".join(ast.unparse(d.body[-1]).split()) if d else "MISSING"
     fm = _find_def(t_terms, ["FunsorMeta", "__init__"])
     forms["metaInitForm"] = " ;; ".join(" ".join(ast.unparse(n).split()) for n in fm.body) if fm else "MISSING"
+    # the op instance cache: key construction and lookup/insert
+    def flat(node):
+        return " ;; ".join(" ".join(ast.unparse(n).split()) for n in node.body) if node else "MISSING"
+    try:
+        t_op = ast.parse((REPO / "funsor" / "ops" / "op.py").read_text())
+        t_arr = ast.parse((REPO / "funsor" / "ops" / "array.py").read_text())
+        t_bi = ast.parse((REPO / "funsor" / "ops" / "builtin.py").read_text())
+        forms["opHashForm"] = flat(_find_def(t_op, ["OpMeta", "hash_args_kwargs"]))
+        call = _find_def(t_op, ["OpMeta", "__call__"])
+        forms["opCallForm"] = flat(call)
+        forms["reshapeHashForm"] = flat(_find_def(t_arr, ["ReshapeMeta", "hash_args_kwargs"]))
+        forms["getsliceHashForm"] = flat(_find_def(t_bi, ["GetsliceMeta", "hash_args_kwargs"]))
+    except (OSError, SyntaxError):
+        for k in ("opHashForm", "opCallForm", "reshapeHashForm", "getsliceHashForm"):
+            forms.setdefault(k, "MISSING")
     return forms
 
 
@@ -334,6 +349,50 @@ class Recipe:
 
 
 T = "funsor.terms."
+
+
+def _op_recipes():
+    """Parametrised ops whose parameters are distinct but hash-equal (hash(-1) == hash(-2)) or ==-equal
+    (1 == 1.0 == True, 0 == -0.0 == False), in positional and keyword forms, alive at the same time, plus
+    the lazy terms built on them.  `args` is the tuple OpMeta.__call__ binds (defaults applied)."""
+    out = []
+    red = [("sum", "SumOp", True), ("amax", "AmaxOp", False), ("prod", "ProdOp", False),
+           ("argmax", "ArgmaxOp", False)]
+    for nm, cls, full in red:
+        c = "funsor.ops." + cls
+        forms = [("m1", "(-1, False)", f"ops.{cls}(-1)"), ("m2", "(-2, False)", f"ops.{cls}(-2)"),
+                 ("m2k", "(-2, False)", f"ops.{cls}(axis=-2)"), ("m1kd", "(-1, True)", f"ops.{cls}(-1, keepdims=True)")]
+        if full:
+            forms += [("m1k", "(-1, False)", f"ops.{cls}(axis=-1, keepdims=False)"),
+                      ("m3", "(-3, False)", f"ops.{cls}(-3)"),
+                      ("1", "(1, False)", f"ops.{cls}(1)"), ("1f", "(1.0, False)", f"ops.{cls}(1.0)"),
+                      ("1t", "(True, False)", f"ops.{cls}(True)"), ("1z", "(1, 0)", f"ops.{cls}(1, 0)"),
+                      ("0", "(0, False)", f"ops.{cls}(0)"), ("0f", "(False, False)", f"ops.{cls}(False)"),
+                      ("0n", "(-0.0, False)", f"ops.{cls}(-0.0)"),
+                      ("m1kd1", "(-1, 1)", f"ops.{cls}(-1, 1)"),
+                      ("dflt", "(None, False)", f"ops.{cls}()")]
+        for suf, args, expr in forms:
+            out.append(Recipe(f"{nm}_{suf}", c, args, expr=expr, mcls="OpMeta", dyn=True,
+                              core=(nm == "sum" and suf in ("m1", "m2")),
+                              pk=("reflect",) if suf in ("m1", "m2") else ()))
+        for suf in ("m1", "m2"):
+            out.append(Recipe(f"u{nm}_{suf}", T + "Unary", f"(H['{nm}_{suf}'], H['x3'])", needs=(f"{nm}_{suf}", "x3"),
+                              interps=("reflect", "lazy"), pk=("reflect", "lazy"), ri=("reflect",),
+                              core=(nm == "sum")))
+    for suf, args, expr in [("m1", "(-1,)", "ops.UnsqueezeOp(-1)"), ("m2", "(-2,)", "ops.UnsqueezeOp(dim=-2)"),
+                            ("0", "(0,)", "ops.UnsqueezeOp(0)"), ("0f", "(False,)", "ops.UnsqueezeOp(False)")]:
+        out.append(Recipe(f"unsq_{suf}", "funsor.ops.UnsqueezeOp", args, expr=expr, mcls="OpMeta", dyn=True))
+    for suf, args, expr in [("m1", "(-1,)", "ops.StackOp(-1)"), ("m2", "(-2,)", "ops.StackOp(dim=-2)"),
+                            ("0", "(0,)", "ops.StackOp()")]:
+        out.append(Recipe(f"stk_{suf}", "funsor.ops.StackOp", args, expr=expr, mcls="OpMeta", dyn=True))
+    for suf, args, expr in [("m1", "((-1,),)", "ops.ReshapeOp((-1,))"), ("m2", "((-2,),)", "ops.ReshapeOp((-2,))"),
+                            ("23", "((2, 3),)", "ops.ReshapeOp((2, 3))"), ("23f", "((2.0, 3),)", "ops.ReshapeOp((2.0, 3))"),
+                            ("32", "((3, 2),)", "ops.ReshapeOp((3, 2))")]:
+        out.append(Recipe(f"rs_{suf}", "funsor.ops.ReshapeOp", args, expr=expr, mcls="ReshapeMeta", dyn=True))
+    return out
+
+
+OP_RECIPES = []
 RECIPES = [
     Recipe("x", T + "Variable", "('x', Real)", core=True, pk=("reflect", "lazy", "eager"), ri=("reflect",)),
     Recipe("xb", T + "Variable", "('x', Bint[2])"),
@@ -402,7 +461,12 @@ RECIPES = [
     Recipe("g1k", "funsor.ops.GetitemOp", "(1,)", expr="ops.GetitemOp(offset=1)", mcls="OpMeta", dyn=True),
     Recipe("g2", "funsor.ops.GetitemOp", "(2,)", expr="ops.GetitemOp(2)", mcls="OpMeta", dyn=True),
     Recipe("g0", "funsor.ops.GetitemOp", "(0,)", expr="ops.GetitemOp(0)", mcls="OpMeta"),
+    Recipe("gm1", "funsor.ops.GetitemOp", "(-1,)", expr="ops.GetitemOp(-1)", mcls="OpMeta", dyn=True),
+    Recipe("gm2", "funsor.ops.GetitemOp", "(-2,)", expr="ops.GetitemOp(offset=-2)", mcls="OpMeta", dyn=True),
+    Recipe("x3", T + "Variable", "('x3', Reals[2, 3, 4])"),
 ]
+OP_RECIPES.extend(_op_recipes())
+RECIPES = RECIPES + OP_RECIPES
 RBY = {r.name: r for r in RECIPES}
 ARR_SLOTS = {"A0": 0, "A1": 1}
 SLOT_P = 500                      # result of the last pickle / reinterpret
@@ -503,10 +567,7 @@ class World:
         return sum(len(c._cons_cache) for c in self.funsor_classes if "_cons_cache" in c.__dict__)
 
 
-DYN_KEYS = {("funsor.domains.ArrayType", (5, ())), ("funsor.domains.ArrayType", ("real", (5,))),
-            ("funsor.domains.ArrayType", ("real", (5, 5))), ("funsor.ops.GetitemOp", ((1,), ())),
-            ("funsor.ops.GetitemOp", ((2,), ()))}
-PINNED_OPS = ["exp", "lt", "mul", "add", "getitem"]
+PINNED_OPS = ["exp", "lt", "mul", "add", "getitem", "sum", "amax", "prod", "argmax", "unsqueeze", "stack"]
 
 
 def _warm_up(w, rng):
@@ -519,19 +580,21 @@ def _warm_up(w, rng):
 
 
 def _collect_pins(w):
+    """Everything in the domain tables that no dynamic recipe produced, and the module-level op instances the
+    recipes mention.  The model arguments of a pin are read off the *object* (dtype/shape, __args__, the op's
+    bound defaults), never off the real table key, whose shape is the code's business."""
     pins = []
-    d5 = w.H.get("d5")
-    for key, dom in list(ArrayType._type_cache.items()):
-        if ("funsor.domains.ArrayType", key) not in DYN_KEYS:
-            pins.append(("funsor.domains.ArrayType", "Array", key, dom))
-    for key, dom in list(ProductDomain._type_cache.items()):
-        if not any(d is d5 for d in key):
-            pins.append(("funsor.domains.ProductDomain", "Product", key, dom))
+    dyn_objs = {id(w.H[r.name]) for r in RECIPES if r.dyn and r.name in w.H}
+    for dom in list(ArrayType._type_cache.values()):
+        if id(dom) not in dyn_objs:
+            pins.append(("funsor.domains.ArrayType", "Array", (dom.dtype, dom.shape), dom))
+    for dom in list(ProductDomain._type_cache.values()):
+        if id(dom) not in dyn_objs:
+            pins.append(("funsor.domains.ProductDomain", "Product", tuple(dom.__args__), dom))
     for nm in PINNED_OPS:
         op = getattr(ops, nm)
         c = type(op)
-        key = next(k for k, v in c._instance_cache.items() if v is op)
-        pins.append((f"{c.__module__}.{c.__qualname__}", "OpMeta", key[0], op))
+        pins.append((f"{c.__module__}.{c.__qualname__}", "OpMeta", tuple(op.defaults.values()), op))
     return [(PIN_SLOT0 + k, t, m, a, o) for k, (t, m, a, o) in enumerate(pins)]
 
 
@@ -542,7 +605,7 @@ def warm_up_and_pin(w, rng):
     holding the last domain would keep it alive across the collection below.)"""
     _warm_up(w, rng)
     w.pinned = _collect_pins(w)
-    assert len(w.pinned) < 90
+    assert len(w.pinned) < 90, len(w.pinned)
     w.H.clear()
     w.A.clear()
     full_collect()
@@ -689,6 +752,7 @@ class Run:
         self.tracked_arr = []      # [(obs index at creation, slot, weakref)]  arrays
         self.nobs = 0
         self.error = None
+        self.stale = None          # (history index, description): a constructor handed back a stale object
 
     # the pinned prelude + the two arrays
     def prelude(self):
@@ -743,6 +807,10 @@ class Run:
                 enc(a, w.ids, toks)
             obj = w.build(r, sym[2], args)
             w.H[r.name] = obj
+            if self.stale is None:
+                self.stale = stale_request(r, args, obj, w)
+                if self.stale is not None:
+                    self.stale = (len(self.real_obs) - 1, self.stale)
             mcls = r.mcls or w.cls_mcls[r.cls]
             self.req.append(["mk", RSLOT[r.name], w.cls_index[r.cls], r.cyc, Q(mcls), toks, w.ids(obj)])
             self.req.append(["sweep"])
@@ -796,6 +864,24 @@ class Run:
         w.P = None
         w.A.clear()
         full_collect()
+
+
+def stale_request(r, args, obj, w):
+    """"a later request never receives a stale object built from different arguments": what the returned object
+    says it was built from must be == the request (arrays and interned objects by identity).  Ops record their
+    bound parameters in `.defaults`; Tensors carry their array."""
+    if isinstance(obj, ops.Op):
+        have = tuple(obj.defaults.values())
+        have = tuple(tuple(h) if isinstance(h, list) else h for h in have)
+        if have != tuple(args):
+            return f"{r.expr} returned an op whose bound parameters are {have!r}, requested {tuple(args)!r}"
+    elif isinstance(obj, Tensor) and r.needs and r.needs[0] in ARR_SLOTS:
+        if obj.data is not w.A[ARR_SLOTS[r.needs[0]]]:
+            return f"{r.name}: Tensor carries a different array than the one passed"
+    elif isinstance(obj, Unary) and r.cls.endswith("Unary") and r.expr is None:
+        if obj.op is not args[0] or obj.arg is not args[1]:
+            return f"{r.name}: Unary(op, arg) returned a term with op {obj.op!r} / another arg, requested {args[0]!r}"
+    return None
 
 
 def parse_obs(o):
@@ -929,9 +1015,32 @@ def oracle_violation(w, expect_same):
 
 ALIASES = [("n1", "n1f"), ("n1", "n1t"), ("n1", "n1n"), ("nz", "nnz"), ("n1b3", "n1b3f"), ("t0", "t0t"),
            ("t0n", "t0nn"), ("sl", "sl2"), ("sl", "sl3"), ("d5", "d5a"), ("r5", "r5a"),
-           ("g1", "g1k")]
+           ("g1", "g1k"), ("sum_m1", "sum_m1k"), ("sum_m2", "sum_m2k"), ("sum_1", "sum_1f"), ("sum_1", "sum_1t"),
+           ("sum_1", "sum_1z"), ("sum_0", "sum_0f"), ("sum_0", "sum_0n"), ("sum_m1kd", "sum_m1kd1"),
+           ("amax_m2", "amax_m2k"), ("prod_m2", "prod_m2k"), ("argmax_m2", "argmax_m2k"), ("rs_23", "rs_23f"),
+           ("unsq_0", "unsq_0f")]
 DISTINCT = [("n1", "n1b3"), ("x", "xb"), ("t0", "t0b"), ("t0", "t0n"), ("sl", "sl4"), ("d5", "r5"),
-            ("r5", "r55"), ("g1", "g2"), ("s0", "al0"), ("n1", "nhalf"), ("nz", "n1")]
+            ("r5", "r55"), ("g1", "g2"), ("s0", "al0"), ("n1", "nhalf"), ("nz", "n1"),
+            ("sum_m1", "sum_m2"), ("amax_m1", "amax_m2"), ("prod_m1", "prod_m2"), ("argmax_m1", "argmax_m2"),
+            ("usum_m1", "usum_m2"), ("uamax_m1", "uamax_m2"), ("uprod_m1", "uprod_m2"),
+            ("uargmax_m1", "uargmax_m2"), ("unsq_m1", "unsq_m2"), ("stk_m1", "stk_m2"), ("rs_m1", "rs_m2"),
+            ("gm1", "gm2"), ("rs_23", "rs_32"), ("sum_m1", "sum_m1kd"), ("sum_m2", "sum_m3"), ("sum_1", "sum_0"),
+            ("sum_m1", "amax_m1")]
+VALUE_REF = {"usum": np.sum, "uamax": np.amax, "uprod": np.prod, "uargmax": np.argmax}
+VALUE_DATA = np.arange(24, dtype=np.float64).reshape(2, 3, 4) / 7.0
+
+
+def lazy_value_wrong(name, obj):
+    """the lazy reduction term, once its variable is bound to data, must compute *its own* axis"""
+    head, _, suf = name.partition("_")
+    if head not in VALUE_REF or suf not in ("m1", "m2"):
+        return None
+    axis = -1 if suf == "m1" else -2
+    want = VALUE_REF[head](VALUE_DATA, axis=axis)
+    got = obj(x3=Tensor(VALUE_DATA))
+    if not isinstance(got, Tensor) or got.data.shape != want.shape or not np.allclose(got.data, want):
+        return f"{name}: the term built for axis {axis} evaluates to another reduction ({obj})"
+    return None
 
 
 def run_py_oracle(w, hist, rng):
@@ -954,8 +1063,9 @@ def run_py_oracle(w, hist, rng):
                     return f"step {n}: {r.name} rebuilt from identical arguments gave a different object"
                 if prev is not None and w.built_from.get(r.name) != gen and prev is obj:
                     return f"step {n}: {r.name} rebuilt from different arguments returned the old (stale) object"
-                if isinstance(obj, Tensor) and obj.data is not w.A[ARR_SLOTS[r.needs[0]]]:
-                    return f"step {n}: Tensor built on array {r.needs[0]} carries a different array (stale object)"
+                st = stale_request(r, w.args_of(r), obj, w) or lazy_value_wrong(r.name, obj)
+                if st:
+                    return f"step {n}: stale object: {st}"
                 w.H[r.name] = obj
                 w.built_from[r.name] = gen
                 del obj, prev
@@ -1192,6 +1302,13 @@ def run_batch(ctx, w, hists, label):
             ctx.infra_errors.append(f"driver: {ans} for history {hist}")
             continue
         mobs = [parse_obs(o) for o in parse_sx(ans[3:])] if ans != "ok ()" else []
+        if run.stale is not None:
+            k, what = run.stale
+            ctx.fail("input", "C07.stale-object", witness={"history": sym_json(hist[:k + 1]), "stream": label,
+                                                            "what": what},
+                     expected="the object returned was built from the requested arguments", got=what,
+                     python=python_snippet(hist[:k + 1], what) + f"print({what!r})\nFAILS = True\n")
+            continue
         diff = compare(w, run, mobs)
         for sym in hist:
             ctx.count(f"step:{sym[0]}")
@@ -1233,6 +1350,19 @@ def recycling_stats(ctx, w, runs):
 
 
 def correspond(ctx):
+    """A funsor change must never end as an infrastructure error: whatever the harness trips over while driving
+    the real code is a broken correspondence (recorded, then `search` hunts for the concrete witness)."""
+    try:
+        _correspond(ctx)
+    except Exception:
+        import traceback
+        ctx.fail("correspondence", "C07.harness-exception", got=traceback.format_exc()[-1500:],
+                 expected="the harness can drive and observe the real code")
+    finally:
+        gc.enable()
+
+
+def _correspond(ctx):
     rows = getattr(ctx, "_c07_rows", None) or class_table()
     ctx.rule = ("histories over %d recipes (Variable/Number/Tensor/Unary/Binary/Subs/Align/Stack/Tuple/Reduce/"
                 "Lambda/Slice, interned domains, parametrised ops) that share two re-allocatable backing arrays; "
